@@ -99,6 +99,26 @@ struct C01 : Prop {
 			J post = J::arr(); post.push("quiesce"); ph.set("post", post);
 			phs.push(ph);
 		}
+		// normal mode, one run in six: one task resets the system (flush, MSG_SYS_RESET, 1.5 s wait for the nodes to log in, new enumeration) while
+		// other tasks keep submitting unanswered messages without flushing: whatever was accepted meanwhile must still reach the wire
+		if (normal && r.chance(170)) {
+			J ph = J::obj(); J tasks = J::arr();
+			{ J ops = J::arr(); J sl = J::obj(); sl.set("op", "sleep"); sl.set("us", (int) r.range(0, 10) * 5000); ops.push(sl); J rs = J::obj(); rs.set("op", "reset"); ops.push(rs); tasks.push(ops); }
+			int nt = (int) r.range(1, 3); maxtasks = std::max(maxtasks, nt + 1);
+			static const char *quiet[] = {"bm_mirror_occ", "bm_mirror_free", "bm_mirror_position", "sys_clock"};
+			for (int t = 0; t < nt; t++) {
+				J ops = J::arr();
+				for (int i = 0, n = (int) r.range(2, 8); i < n; i++) {
+					if (r.chance(600)) { J sl = J::obj(); sl.set("op", "sleep"); sl.set("us", (int) r.range(1, 80) * 10000); ops.push(sl); }
+					const cat::LL *f = cat::find(quiet[r.below(4)]);
+					ops.push(pc::ll_op(r, *f, tree[r.below(tree.size())].addr));
+				}
+				tasks.push(ops);
+			}
+			ph.set("tasks", tasks); ph.set("reset_race", true);
+			J post = J::arr(); post.push("quiesce"); ph.set("post", post);
+			phs.push(ph);
+		}
 		se.set("phases", phs);
 		J ss = J::arr(); ss.push(se); plan.set("sessions", ss);
 		J sc = sched_json(r, tier, maxtasks, true);
@@ -117,7 +137,7 @@ struct C01 : Prop {
 	bool saw_multi = false, saw_escape = false;
 
 	void attach(Engine &e) override {
-		wire_checked = ops_checked = 0; ann_first.clear(); ann_proc.clear(); ann_by_frame.clear();
+		wire_checked = ops_checked = 0; flush_barriers = 0; ann_first.clear(); ann_proc.clear(); ann_by_frame.clear();
 		last_pkt_step = 0; last_pkt_index = (size_t) -1; saw_multi = saw_escape = false;
 		e.bus.on_delivered = [this, &e](bus::UpFrame &f) {
 			(void) e;
@@ -174,7 +194,22 @@ struct C01 : Prop {
 			e.violate("FRAMING", "downlink byte stream", "stream ends inside a packet after flush at quiescence");
 	}
 
-	void after_op(Engine &e, OpRec &) override { check_framing(e, false); }
+	// (e) bidib_flush is a barrier for the caller's own earlier messages: no message of a C01 run can be deferred (budgets are kept free), so
+	// when a task's flush returns, everything that task submitted before it must have been written (by this flush or by anybody's earlier one)
+	uint64_t flush_barriers = 0;
+	void after_op(Engine &e, OpRec &o) override {
+		check_framing(e, false);
+		if (o.op->gets("op") != "flush") return;
+		std::map<std::string, int> own, wire;
+		for (auto &q : e.oplog) if (q.session == o.session && q.phase == o.phase && q.task == o.task && q.idx < o.idx && q.op->gets("op") == "ll") own[pc::msg_key(pc::ll_expected(*q.op))]++;
+		if (own.empty()) return;
+		flush_barriers++;
+		for (size_t i = wire_checked; i < e.bus.wire.size(); i++) wire[pc::msg_key(e.bus.wire[i].msg)]++;
+		for (auto &kv : own) {
+			int g = wire.count(kv.first) ? wire[kv.first] : 0;
+			if (g < kv.second) e.violate("NOT_FLUSHED", "bidib_flush as a barrier", "bidib_flush returned to task " + std::to_string(o.task) + " but message " + kv.first + ", which the same task had submitted before (" + std::to_string(kv.second) + "x), is on the wire only " + std::to_string(g) + "x");
+		}
+	}
 
 	void at_quiescence(Engine &e, int s, int p) override {
 		check_framing(e, true);
@@ -197,7 +232,10 @@ struct C01 : Prop {
 			if (g < kv.second) e.violate("MSG_MISSING", "wire vs accepted calls", "message " + kv.first + " submitted " + std::to_string(kv.second) + "x but on the wire " + std::to_string(g) + "x after flush at quiescence");
 			if (g > kv.second) e.violate("MSG_DUPLICATED", "wire vs accepted calls", "message " + kv.first + " submitted " + std::to_string(kv.second) + "x but on the wire " + std::to_string(g) + "x");
 		}
-		for (auto &kv : got) if (!exp.count(kv.first)) e.violate("MSG_UNEXPECTED", "wire vs accepted calls", "wire carries " + kv.first + " which no call produced (torn or corrupted message)");
+		// (a phase with a system reset carries the library's own reset / enumeration dialogue as well: C20's subject)
+		bool reset_race = e.plan["sessions"][(size_t) s]["phases"][(size_t) p].getb("reset_race");
+		if (reset_race) e.probe("reset_race_phases");
+		for (auto &kv : got) if (!exp.count(kv.first) && !reset_race) e.violate("MSG_UNEXPECTED", "wire vs accepted calls", "wire carries " + kv.first + " which no call produced (torn or corrupted message)");
 	}
 
 	void at_end(Engine &e) override { check_framing(e, false); }
@@ -211,6 +249,7 @@ struct C01 : Prop {
 		p.set("packets", (long long) e.bus.dec.frames);
 		p.set("capacity_announcements", (long long) ann_first.size());
 		p.set("max_write_bytes_ge_200", e.bus.max_write >= 200 ? 1 : 0);
+		p.set("flush_barriers_judged", (long long) flush_barriers);
 		f.set("probes", p);
 	}
 };
